@@ -88,6 +88,14 @@ class TracedDict(dict):
         dict.__setitem__(self, k, v)
         TracedDict.log("reg", k, True)
 
+    def __getitem__(self, k):
+        self._y("get", False)
+        return dict.__getitem__(self, k)
+
+    def get(self, k, *d):
+        self._y("get", False)
+        return dict.get(self, k, *d)
+
     def pop(self, k, *d):
         self._y("pop")
         r = dict.pop(self, k, *d)
@@ -100,6 +108,11 @@ def run_once(seed, K, dup, router_cls=c13.Router):
     from engine import vsched
     import bromelia.bromelia as bb
     s = vsched.new_sched(seed, max_steps=40000)
+    if seed % 2:
+        # half of the executions: every source line of the rendezvous code is a preemption point
+        s.line_funcs = {"handler_pending_answers", "send_message", "wait", "notify", "update_msg", "is_pending_answer",
+                        "get_pending_answer", "insert_pending_answer", "remove_pending_answer", "set_outgoing_message"}
+        s.line_budget = 3000
     events = []
     cur = {}                       # VThread id -> ("caller", c) / ("disp", c, k)
     hb = {}                        # hop-by-hop bytes -> caller index
@@ -238,7 +251,13 @@ def run(rep):
         events, results, out, dead = run_once(seed, K, dup)
         rep.case(("run", i))
         replay = {"kind": "run", "seed": seed, "K": K, "dup": dup}
-        if out != "until" or dead:
+        dead_callers = [d for d in dead if d[0].startswith("caller")]
+        if dead and not dead_callers and out == "until":
+            # a dispatcher thread of a repeated answer died (e.g. KeyError between the registry test and fetch): the statement
+            # constrains what callers receive, not the fate of the thread handling a redundant answer
+            rep.nonprop_differences += 1
+            rep.notes.setdefault("dispatcher_threads_that_died", []).append(str(dead[0])) if len(rep.notes.get("dispatcher_threads_that_died", [])) < 3 else None
+        if out != "until" or dead_callers:
             rep.violation(f"{K} callers{' (answers repeated)' if dup else ''}: {out} {dead}; callers returned {results}", replay)
         elif any(results.get(k) != k for k in range(1, K + 1)):
             rep.violation(f"{K} callers: returned answers {results} (caller k must get the answer with its own Hop-by-Hop id)", replay)
